@@ -56,7 +56,7 @@ pub mod shim_std {
     pub use ::std::*;
     pub mod fs {
         use super::super::{fs_pre, FsAction};
-        pub use ::std::fs::{read_dir, File};
+        pub use ::std::fs::{read_dir, File, OpenOptions};
         pub fn write<P: AsRef<::std::path::Path>, C: AsRef<[u8]>>(
             p: P,
             c: C,
@@ -74,6 +74,24 @@ pub mod shim_std {
         }
         pub fn read<P: AsRef<::std::path::Path>>(p: P) -> ::std::io::Result<Vec<u8>> {
             ::std::fs::read(p)
+        }
+        pub fn rename<P: AsRef<::std::path::Path>, Q: AsRef<::std::path::Path>>(
+            from: P,
+            to: Q,
+        ) -> ::std::io::Result<()> {
+            match fs_pre("std.rename", to.as_ref(), 0) {
+                FsAction::Fail(e) => Err(::std::io::Error::from_raw_os_error(e)),
+                // dies before the rename takes effect
+                FsAction::Freeze | FsAction::TornThenDie(0) => {
+                    Err(::std::io::Error::other("sim: node died"))
+                }
+                // dies right after the rename took effect
+                FsAction::TornThenDie(_) | FsAction::Short(_) => {
+                    ::std::fs::rename(from, to)?;
+                    Err(::std::io::Error::other("sim: node died"))
+                }
+                FsAction::Proceed => ::std::fs::rename(from, to),
+            }
         }
     }
 }
